@@ -40,6 +40,28 @@
     (tpmdetection.local), bytes_range, decrypt_frame (DecryptPrivKey framing),
     pem_loop (the PEM block loop of parsePrivateKey / ReadPubKey over an
     abstract pem.Decode).
+    Model/DecodersExt.v holds the repo-owned logic AROUND third-party parsers,
+    driven by what the third-party call returned: [pem_run who t n] (the two
+    block loops over the observed pem.Decode calls [t] of a file of [n] bytes;
+    [skips_block] is the "certificate" test of each loop, [pem_code] the return
+    code given which blocks the x509 parsers accept), [get_region] /
+    [calc_image_offset] (tools.GetRegion / CalcImageOffset after fiano),
+    [local_files] (the file decisions of tpmdetection.local).
+    - [reg_width id]: the serialised width of a register id (32 for
+      TXT.PUBLIC.KEY, 8/4/1 by parser table, [None] = unknown id);
+      [value_from_bytes] = [value_from_bytes_g true] is the code after the repair
+      4a8d65e, [value_from_bytes_g false] the code before it (trailing bytes
+      ignored); [vfb_value id b] the value of exactly-wide bytes.
+
+    The only [_partial] theorem is [C15_pem_loop_terminates_partial].  Missing
+    clause: a proof that encoding/pem.Decode (Go standard library, a PEM/base64
+    parser of some 150 lines over bytes.Index / base64) returns a rest strictly
+    shorter than its argument.  It cannot be had here without modelling that
+    parser; instead the hypothesis is CHECKED on every run: the harness records
+    every pem.Decode call on every generated key file, [trace_ok] (evaluated in
+    Coq per case) says each call met the contract, and for decoders defined by
+    such a trace the statement is proved without hypothesis
+    ([C15_pem_trace_meets_contract], [C15_pem_run_total]).
 
     Naming: [_partial] = needs the visible extra hypothesis; [_needs_...] = a
     closed witness (or a characterisation) showing that the code before the
@@ -47,9 +69,9 @@
     No theorem of this file is refuted on the code as it is; the one finding
     that stays open (fiano's fit.ParseSACMData allocating Size*4 bytes behind
     tools.ParseACM) is third-party code and carries no model. *)
-From CSS Require Import Lib.Base Model.Decoders.
+From CSS Require Import Lib.Base Model.Decoders Model.DecodersExt.
 From CSS Require Model.EventLog.
-From CSS Require Import Proofs.Decoders.
+From CSS Require Import Proofs.Decoders Proofs.DecodersExt.
 
 (** * 1. LCP policy (tools.ParsePolicy): total, at most 15 reads, no length-prefixed allocation *)
 Theorem C15_ParsePolicy_total : forall sha3 d,
@@ -125,6 +147,19 @@ Theorem C15_LookupACMSize_needs_length_check : forall h, lenZ h < 32 -> run (loo
 Proof. exact P_lookup_needs_length_check. Qed.
 Print Assumptions C15_LookupACMSize_needs_length_check.
 
+(** exactly: 32 bytes or more give [uint32(Size) * 4] computed in uint32, Size = the four bytes at offset 24 *)
+Theorem C15_LookupACMSize_exact : forall h,
+  (32 <= lenZ h -> exists a r, dropZ (firstn 32 h) 24 = a ++ r /\ lenZ a = 4 /\
+      outcome_of (run (lookup_acm_size faithful h) h) = Ok [wrap32 (le_val a * 4)]) /\
+  (lenZ h < 32 -> outcome_of (run (lookup_acm_size faithful h) h) = Err E_FIX).
+Proof. exact Q_lookup_exact. Qed.
+Print Assumptions C15_LookupACMSize_exact.
+
+Theorem C15_LookupACMSize_value_iff : forall h,
+  (exists v, outcome_of (run (lookup_acm_size faithful h) h) = Ok v) <-> 32 <= lenZ h.
+Proof. exact Q_lookup_value_iff. Qed.
+Print Assumptions C15_LookupACMSize_value_iff.
+
 (** ParseACMInfo returns a value or an error for every user area / module (no loops: at most 9 reads) *)
 Theorem C15_ACMInfo_total : forall fx total user, value_or_error (run (acm_info fx total) user).
 Proof. exact P_acm_info_total. Qed.
@@ -181,6 +216,12 @@ Theorem C15_ParseTXTRegs_needs_seek : exists d, lenZ d = 16 /\ run (parse_txt_re
 Proof. exact P_txt_regs_needs_seek. Qed.
 Print Assumptions C15_ParseTXTRegs_needs_seek.
 
+(** a value iff the image reaches behind the last register read, TXT.E2STS at 0x8f0 *)
+Theorem C15_ParseTXTRegs_value_iff : forall d,
+  (exists v, outcome_of (run (parse_txt_regs faithful d) d) = Ok v) <-> 2296 <= lenZ d.
+Proof. exact Q_txt_regs_value_iff. Qed.
+Print Assumptions C15_ParseTXTRegs_value_iff.
+
 Theorem C15_ParseBIOSData_total : forall d,
   value_or_error (run parse_bios_data d) /\ res_steps (run parse_bios_data d) <= 8 /\
   res_alloc (run parse_bios_data d) = 0.
@@ -198,12 +239,22 @@ Theorem C15_ReadACMStatus_needs_seek : exists d, lenZ d = 16 /\ run (read_acm_st
 Proof. exact P_acm_status_needs_seek. Qed.
 Print Assumptions C15_ReadACMStatus_needs_seek.
 
+Theorem C15_ReadACMStatus_value_iff : forall d,
+  (exists v, outcome_of (run (read_acm_status faithful d) d) = Ok v) <-> 816 <= lenZ d.
+Proof. exact Q_acm_status_value_iff. Qed.
+Print Assumptions C15_ReadACMStatus_value_iff.
+
 (** ReadACMPolicyStatusRaw (offset 0x378) and ReadBootStatusRaw (0xA0) seek instead of slicing: total for every offset *)
 Theorem C15_ReadRaw64_total : forall d off,
   value_or_error (run (read_raw64_at d off) d) /\ res_steps (run (read_raw64_at d off) d) <= 1 /\
   res_alloc (run (read_raw64_at d off) d) = 0.
 Proof. exact P_raw64. Qed.
 Print Assumptions C15_ReadRaw64_total.
+
+Theorem C15_ReadRaw64_value_iff : forall d off, 0 <= off ->
+  ((exists v, outcome_of (run (read_raw64_at d off) d) = Ok v) <-> off + 8 <= lenZ d).
+Proof. exact Q_raw64_value_iff. Qed.
+Print Assumptions C15_ReadRaw64_value_iff.
 
 (** * 5. pkg/registers *)
 
@@ -213,6 +264,12 @@ Theorem C15_readtxt_total : forall d,
   res_alloc (run (read_txt_registers faithful d) d) = 0.
 Proof. exact P_readtxt_total. Qed.
 Print Assumptions C15_readtxt_total.
+
+(** all sixteen registers iff the image holds 0x420 bytes (TXT.PUBLIC.KEY ends there) *)
+Theorem C15_readtxt_value_iff : forall d,
+  (exists v, outcome_of (run (read_txt_registers faithful d) d) = Ok v) <-> 1056 <= lenZ d.
+Proof. exact Q_readtxt_value_iff. Qed.
+Print Assumptions C15_readtxt_value_iff.
 
 (** ... since repair a533fa8 (TXTConfigSpace.from): before it a 16-byte image panicked, now it is
     the collected error *)
@@ -228,6 +285,23 @@ Theorem C15_readreg_total : forall d k,
   res_alloc (run (read_reg_k faithful d k) d) = 0.
 Proof. exact P_readreg_total. Qed.
 Print Assumptions C15_readreg_total.
+
+(** every Read* function, exactly: the bytes [off, off+w) when the image holds them, io.EOF when it ends at
+    or before the register, io.ErrUnexpectedEOF when it ends inside it *)
+Theorem C15_readreg_exact : forall d k off w sl,
+  nth_error txt_reg_table (Z.to_nat k) = Some (off, w, sl) ->
+  (off + w <= lenZ d ->
+     exists a r, dropZ d off = a ++ r /\ lenZ a = w /\ outcome_of (run (read_reg_k faithful d k) d) = Ok (reg_summary a)) /\
+  (lenZ d <= off -> outcome_of (run (read_reg_k faithful d k) d) = Err E_EOF) /\
+  (off < lenZ d < off + w -> outcome_of (run (read_reg_k faithful d k) d) = Err E_UEOF).
+Proof. exact Q_readreg_exact. Qed.
+Print Assumptions C15_readreg_exact.
+
+Theorem C15_readreg_value_iff_fits : forall d k off w sl,
+  nth_error txt_reg_table (Z.to_nat k) = Some (off, w, sl) ->
+  ((exists v, outcome_of (run (read_reg_k faithful d k) d) = Ok v) <-> off + w <= lenZ d).
+Proof. exact Q_readreg_value_iff_fits. Qed.
+Print Assumptions C15_readreg_value_iff_fits.
 
 (** an image that ends at or before the register's offset gives io.EOF ... *)
 Theorem C15_readreg_short_is_eof : forall d k off w sl,
@@ -248,11 +322,44 @@ Theorem C15_ValueFromBytes_total : forall id b,
 Proof. exact P_value_from_bytes. Qed.
 Print Assumptions C15_ValueFromBytes_total.
 
+(** since the repair 4a8d65e: a value iff the number of bytes is exactly the register's width (32 for
+    TXT.PUBLIC.KEY, 8 / 4 / 1 by parser table; never for an unknown id), and then it is the little-endian
+    value of all the bytes (ACM_STATUS: its low 32 bits).  With [C15_ValueFromBytes_total]: never a panic. *)
+Theorem C15_ValueFromBytes_value_iff_width : forall id b,
+  ((exists v, outcome_of (run (value_from_bytes id b) b) = Ok v) <-> reg_width id = Some (lenZ b)) /\
+  (reg_width id = Some (lenZ b) -> outcome_of (run (value_from_bytes id b) b) = Ok (vfb_value id b)).
+Proof. exact Q_vfb_value_iff_width. Qed.
+Print Assumptions C15_ValueFromBytes_value_iff_width.
+
+(** ... which rests on that repair: before it TXT.ESTS = {0x01, 0xff} was accepted as TXT.ESTS = 1 *)
+Theorem C15_ValueFromBytes_needs_length_check :
+  reg_width ID_ESTS = Some 1 /\
+  outcome_of (run (value_from_bytes_g false ID_ESTS [1; 255]) [1; 255]) = Ok [1] /\
+  outcome_of (run (value_from_bytes ID_ESTS [1; 255]) [1; 255]) = Err E_OTHER /\
+  outcome_of (run (value_from_bytes ID_ESTS [1]) [1]) = Ok [1].
+Proof. exact Q_vfb_needs_length_check. Qed.
+Print Assumptions C15_ValueFromBytes_needs_length_check.
+
+(** ... and the repair changed the result only for values longer than the width *)
+Theorem C15_ValueFromBytes_fix_conservative : forall id b,
+  outcome_of (run (value_from_bytes_g false id b) b) = outcome_of (run (value_from_bytes id b) b) \/
+  (exists w v, reg_width id = Some w /\ w < lenZ b /\
+     outcome_of (run (value_from_bytes_g false id b) b) = Ok v /\ outcome_of (run (value_from_bytes id b) b) = Err E_OTHER).
+Proof. exact Q_vfb_fix_conservative. Qed.
+Print Assumptions C15_ValueFromBytes_fix_conservative.
+
 (** Registers.UnmarshalJSON after encoding/json: [enc] frames the (id, value) entries *)
 Theorem C15_JSONRegisters_total : forall enc,
   value_or_error (run (parse_registers (S (length enc)) enc []) []).
 Proof. exact json_registers_total. Qed.
 Print Assumptions C15_JSONRegisters_total.
+
+(** ... and the document is accepted iff it is well framed and every entry carries exactly its register's width *)
+Theorem C15_JSONRegisters_value_iff_widths : forall enc,
+  (exists v, outcome_of (run (parse_registers (S (length enc)) enc []) []) = Ok v) <->
+  (exists es, json_entries (S (length enc)) enc = Some es /\ Forall entry_width_ok es).
+Proof. exact Q_json_value_iff_widths. Qed.
+Print Assumptions C15_JSONRegisters_value_iff_widths.
 
 (** * 6. event data (tpmeventlog.ParseLocality, ParseEventData; model shared with C12) *)
 Theorem C15_EventData_total : forall d e isz,
@@ -279,6 +386,15 @@ Theorem C15_LocalCaps_total : forall d,
   res_alloc (run (local_caps d) d) = 0.
 Proof. exact P_local_caps. Qed.
 Print Assumptions C15_LocalCaps_total.
+
+(** tpmdetection.local with its two file decisions: no device file = no TPM, no capability file = TPM 2.0 *)
+Theorem C15_LocalFiles_total : forall dm cm d,
+  value_or_error (run (local_files dm cm d) d) /\ res_steps (run (local_files dm cm d) d) <= lenZ d + 1 /\
+  res_alloc (run (local_files dm cm d) d) = 0 /\
+  (dm = true -> outcome_of (run (local_files dm cm d) d) = Ok [TypeNoTPM]) /\
+  (dm = false -> cm = true -> outcome_of (run (local_files dm cm d) d) = Ok [TypeTPM20]).
+Proof. exact Q_local_files. Qed.
+Print Assumptions C15_LocalFiles_total.
 
 (** * 8. check.BytesRange, bootguard.DecryptPrivKey (framing) *)
 Theorem C15_BytesRange_total : forall len a b i, value_or_error (run (bytes_range len a b) i).
@@ -315,7 +431,94 @@ Theorem C15_pem_loop_needs_progress : exists decode raw, forall fuel, pem_loop d
 Proof. exact P_pem_loop_needs_progress. Qed.
 Print Assumptions C15_pem_loop_needs_progress.
 
+(** The hypothesis is checked on the real pem.Decode on every run: a recorded trace of calls that passes
+    [trace_ok] (each call returned a rest strictly shorter than its argument) defines a decoder that meets
+    the contract ... *)
+Theorem C15_pem_trace_meets_contract : forall who t, trace_ok t = true ->
+  forall raw c rest, decode_of who t raw = Some (c, rest) -> (length rest < length raw)%nat.
+Proof. exact decode_of_progress. Qed.
+Print Assumptions C15_pem_trace_meets_contract.
+
+(** ... so both loops (parsePrivateKey: [who] = 0, ReadPubKey: [who] = 1) terminate on every file whose
+    pem.Decode calls were observed, without hypothesis on pem.Decode ... *)
+Theorem C15_pem_run_total : forall who t n, trace_ok t = true ->
+  pem_run who t n <> OutOfFuel /\ pem_run who t n <> Panic.
+Proof. exact Q_pem_run_total. Qed.
+Print Assumptions C15_pem_run_total.
+
+(** ... and leave exactly where the chain of rests says: at the first block the loop does not skip ([Ok]:
+    handed to the x509 parsers) or when the blocks run out ([Err]: "failed to parse ... key") *)
+Theorem C15_pem_run_chain : forall who t n, trace_ok t = true -> 0 <= n ->
+  pem_run who t n = pem_chain who t (S (Z.to_nat n)) n.
+Proof. exact Q_pem_run_chain. Qed.
+Print Assumptions C15_pem_run_chain.
+
+(** the return code of the whole function ([pem_code]: 0 = key, 1 = "failed to parse", 2 = x509 error), given
+    the positions [keys] whose block the x509 parsers accept: it is 1 exactly when the loop ran out of blocks,
+    and a key is returned only for a block that is not skipped and that x509 accepts *)
+Theorem C15_pem_code : forall who t keys n, trace_ok t = true -> 0 <= n ->
+  (pem_run who t n = Ok true <-> pem_code who t keys n <> 1) /\
+  ((exists c, pem_run who t n = Err c) <-> pem_code who t keys n = 1) /\
+  (pem_code who t keys n = 0 -> exists m ty r, trace_lookup t m = Some (ty, r) /\ skips_block who ty = false /\ In m keys).
+Proof. exact Q_pem_code. Qed.
+Print Assumptions C15_pem_code.
+
+(** * 9. tools.GetRegion, tools.CalcImageOffset (the arithmetic after fiano) *)
+
+(** GetRegion: a value iff fiano found a descriptor with a valid BIOS region; offset and size fit uint32,
+    and for every region record fiano calls valid (base <= limit < 0xFFFF) nothing wraps *)
+Theorem C15_GetRegion_total : forall found valid base limit,
+  get_region found valid base limit <> Panic /\ get_region found valid base limit <> OutOfFuel /\
+  ((exists v, get_region found valid base limit = Ok v) <-> found = true /\ valid = true) /\
+  (forall off size, get_region found valid base limit = Ok [off; size] ->
+     0 <= off < 4294967296 /\ 0 <= size < 4294967296 /\
+     (0 <= base -> base <= limit -> limit < 65535 -> off = base * 4096 /\ size = (limit + 1 - base) * 4096)).
+Proof. exact Q_get_region. Qed.
+Print Assumptions C15_GetRegion_total.
+
+(** CalcImageOffset: an error iff none of the three layouts was recognised; otherwise an offset in uint64
+    (the sum offset + size wraps in uint32, the rest in uint64: [ex_calc_image_offset]) *)
+Theorem C15_CalcImageOffset_total : forall ifd cb bios_ok len addr,
+  calc_image_offset ifd cb bios_ok len addr <> Panic /\ calc_image_offset ifd cb bios_ok len addr <> OutOfFuel /\
+  ((exists c, calc_image_offset ifd cb bios_ok len addr = Err c) <-> ifd = None /\ cb = None /\ bios_ok = false) /\
+  (forall v, calc_image_offset ifd cb bios_ok len addr = Ok v -> 0 <= v < 18446744073709551616).
+Proof. exact Q_calc_image_offset. Qed.
+Print Assumptions C15_CalcImageOffset_total.
+
 (** * Examples: non-trivial values *)
+
+(** register widths; ACM_STATUS keeps the low 32 bits of its 8 bytes; 7 bytes / no bytes are read errors *)
+Example C15_ex_value_from_bytes : reg_width ID_PUBKEY = Some 32 /\ reg_width ID_ACM_STATUS = Some 8 /\ reg_width [66; 79; 71; 85; 83] = None /\
+  outcome_of (run (value_from_bytes ID_ACM_STATUS [1; 2; 3; 4; 5; 6; 7; 8]) [1; 2; 3; 4; 5; 6; 7; 8]) = Ok [67305985] /\
+  outcome_of (run (value_from_bytes ID_ACM_STATUS [1; 2; 3; 4; 5; 6; 7]) [1; 2; 3; 4; 5; 6; 7]) = Err E_UEOF /\
+  outcome_of (run (value_from_bytes ID_ACM_STATUS []) []) = Err E_EOF.
+Proof. exact ex_vfb. Qed.
+(** two JSON entries; the second one byte too long *)
+Example C15_ex_json : let e1 := [8] ++ ID_ESTS ++ [1; 1] in let e2 := [8] ++ ID_ESTS ++ [2; 1; 255] in
+  json_entries (S (length (e1 ++ e1))) (e1 ++ e1) = Some [(ID_ESTS, [1]); (ID_ESTS, [1])] /\
+  outcome_of (run (parse_registers (S (length (e1 ++ e1))) (e1 ++ e1) []) []) = Ok [1; 1; 1; 1] /\
+  outcome_of (run (parse_registers (S (length (e1 ++ e2))) (e1 ++ e2) []) []) = Err E_OTHER.
+Proof. exact ex_json. Qed.
+(** a trace that passes the check: CERTIFICATE, TRUSTED CERTIFICATE (skipped by ReadPubKey only), a key block *)
+Example C15_ex_pem_trace : trace_ok ex_trace = true /\
+  skips_block WHO_PRIVATE ty_trusted = false /\ skips_block WHO_PUBLIC ty_trusted = true /\
+  pem_run WHO_PRIVATE ex_trace 300 = Ok true /\ pem_run WHO_PUBLIC ex_trace 300 = Ok true /\
+  pem_run WHO_PUBLIC [(300, ty_cert, 200); (200, ty_trusted, 100)] 300 = Err E_OTHER /\
+  pem_run WHO_PRIVATE [(300, ty_cert, 200)] 300 = Err E_OTHER /\
+  pem_code WHO_PRIVATE ex_trace [100] 300 = 2 /\ pem_code WHO_PUBLIC ex_trace [100] 300 = 0 /\
+  pem_code WHO_PRIVATE [(300, ty_cert, 200)] [100] 300 = 1.
+Proof. exact ex_pem_trace. Qed.
+(** a BIOS region of blocks 1024..4095 ends at 16 MiB; a coreboot area whose offset + size wraps in uint32;
+    the region-only layout (address below the mapped image: the difference wraps in uint64); no layout *)
+Example C15_ex_calc_image_offset :
+  get_region true true 1024 4095 = Ok [4194304; 12582912] /\
+  calc_image_offset (Some (4194304, 12582912)) None false 16777216 4294967280 = Ok 16777200 /\
+  calc_image_offset None (Some (4294967295, 2)) false 100 4294967296 = Ok 1 /\
+  calc_image_offset None None true 65536 4294901760 = Ok 0 /\
+  calc_image_offset None None true 65536 0 = Ok 18446744069414649856 /\
+  calc_image_offset None None false 65536 0 = Err E_OTHER.
+Proof. exact ex_calc_image_offset. Qed.
+
 
 (** a 32-byte ACM header whose Size field is 0x102 dwords *)
 Example C15_ex_lookup : 32 <= lenZ (repeat 0 24 ++ [2; 1; 0; 0] ++ repeat 0 4) /\
